@@ -50,10 +50,10 @@ CHECKS = {
     'C09': dict(
         text='Payload round trip proved for every checked, normalised meta message of all 17 types (bit-splitting of 16/24-bit '
              'numbers, signed key byte over the whole 30-entry table, frame-rate table, power-of-two denominators up to 2**255, '
-             'text under latin1/ascii), FF-type-VLQ form, VLQ read-back and minimality for all naturals, acceptance of every documented '
+             'text under latin1, ascii and utf-8), FF-type-VLQ form, VLQ read-back and minimality for all naturals, acceptance of every documented '
              'value and rejection classes; the tables are regenerated from the source and tied by decide. Correspondence exhaustive '
              'over the finite attribute domains; KNOWN-FINDING F5 (smpte hours >= 32).',
-        note='Round trip is proved outside the known finding F5 (hours < 32) and for latin1/ascii text; UTF-8 and other charsets are C17.',
+        note='Round trip is proved outside the known finding F5 (hours < 32) and for latin1, ascii and utf-8 text; other charsets are oracle-only (C17).',
         technique='Lean 4 proof (case analysis per meta type, omega, kernel decide over tables) over a hand model; exhaustive differential correspondence',
         design='5 C09'),
     'C12': dict(
@@ -73,7 +73,7 @@ CHECKS = {
         design='5 C13'),
     'C07': dict(
         text='Theorem C07_roundtrip: for every storable file (any number of tracks and events; channel, system-common, sysex, known and '
-             'unknown meta events; natural-number deltas; single-byte charset) load(save(f)) succeeds whenever save does and returns the same type, '
+             'unknown meta events; natural-number deltas; charset latin1, ascii or utf-8) load(save(f)) succeeds whenever save does and returns the same type, '
              'ticks_per_beat and, per track, exactly fix_end_of_track(track) - proved through the per-event lemma (running status coupling '
              'invariant between writer and reader), the size-counted reader loop, the chunk and the header. C07_roundtrip_normal: identity on '
              'files already ending in one end_of_track. C07_saved_fixed_point: the loaded form is storable, re-saves to the same bytes and '
@@ -82,9 +82,8 @@ CHECKS = {
              'end_of_track normalised and every further round is the identity. Refusals: type-0 rule, bad time anywhere => ValueError, success of write_track implies all times are '
              'non-negative integers and no message is real-time. Model of writer and of the whole reader tied byte-for-byte to the '
              'implementation on generated files, unstorable variants and byte-level mutants.',
-        note='PARTIAL: (1) utf-8 charset files are outside C07_roundtrip (covered by C17 theorems and by the '
-             'correspondence); (2) chunk bodies of 2^32 bytes or more and payloads above the reader limit of 1 000 000 bytes are excluded by '
-             'explicit hypotheses. UnknownMetaMessage with a known type byte and header fields outside 16 bits are outside the property.',
+        note='Chunk bodies of 2^32 bytes or more and payloads above the reader limit of 1 000 000 bytes are excluded by '
+             'explicit hypotheses; charsets other than latin1, ascii and utf-8 are oracle-only. UnknownMetaMessage with a known type byte and header fields outside 16 bits are outside the property.',
         technique='Lean 4 proof (round trip by induction over events/tracks with a writer-reader coupling invariant) over a hand model of writer and reader; byte-exact differential correspondence incl. mutants',
         design='5 C07'),
     'C08': dict(
@@ -94,11 +93,13 @@ CHECKS = {
              'valid files). Theorem C08_write_conforms: what save writes for a storable file is a member of the relation for exactly the '
              'in-memory header and fix_end_of_track of each track (exact chunk lengths, running status only directly after a channel message of '
              'equal status and never across meta/sysex, sysex as F0 len data F7); C08_roundtrip_via_spec composes the two. Plus: minimality and '
-             'shape of written VLQs, clip maps bytes above 127 to 127 and is the identity on valid bytes, every written track ends in '
-             'end_of_track. The reader/writer models are tied to the implementation on random conformant alternative encodings in all four '
+             'shape of written VLQs, every written track ends in end_of_track. clip, for ARBITRARY byte strings: C08_clip_keeps_strict (whatever '
+             'clip=False loads, clip=True loads identically), C08_clip_only_difference (if clip=True loads a byte string, clip=False returns the same file '
+             'or stops with the data-byte error, OSError/ValueError, never anything else), C08_clip_message / C08_clip_sysex (clipping = strict reading '
+             'after each consumed data byte above 127 became 127). The reader/writer models are tied to the implementation on random conformant alternative encodings in all four '
              'clip/debug configurations; the written bytes are judged by an independent reference SMF decoder.',
-        note='PARTIAL: debug=True equivalence and the behaviour of clip=True on INVALID data bytes inside a whole file rest on the correspondence '
-             '(the byte-level clip lemma is proved); utf-8 charset and payloads above the 1 000 000-byte reader limit are excluded by explicit hypotheses.',
+        note='PARTIAL: debug=True equivalence rests on the correspondence (debug output is not modelled); payloads above the 1 000 000-byte reader '
+             'limit are excluded by explicit hypotheses; text in latin1, ascii or utf-8 (other charsets oracle-only).',
         technique='Lean 4 proof (specification relation; reader inverts it by induction over the relation with a running-status coupling invariant; writer produces members) over a hand model; differential correspondence on alternative encodings; independent reference decoder as oracle',
         design='5 C08'),
     'C16': dict(
@@ -112,7 +113,7 @@ CHECKS = {
     'C17': dict(
         text='The process-wide charset is modelled as explicit global state with the context manager restoring on both paths; theorem: after ANY '
              'sequence of loads/saves (every failure point of the reader/writer model is a value) the charset is the initial one and a probe '
-             'encoding elsewhere uses it; text payload = encodeText(charset); UTF-8, latin1 and ascii encode/decode round trips proved. '
+             'encoding elsewhere uses it; text payload = encodeText(charset); UTF-8, latin1 and ascii encode/decode round trips proved, and C17_utf8_canonical: the strict UTF-8 decoder accepts only the canonical encoding of what it returns (decode then encode is the identity on bytes). '
              'Correspondence and oracle over 8 codecs x texts x truncation / bad data byte / bad time / undecodable text fault points.',
         note='The codecs are CPython\'s; the model implements latin1, ascii and strict UTF-8; the other five codecs are oracle-only. Concurrent loads are outside.',
         technique='Lean 4 proof (scoped-global state machine; UTF-8 codec round trip by case analysis + omega) + fault-point enumeration against the implementation',
